@@ -83,23 +83,7 @@ Proof. exact (@glue_rotate_squeeze_is_dim1). Qed.
 Print Assumptions C13_tie_rotate_squeeze.
 
 Theorem C13_tie_shape_sites :
-  p_shapes.p_shapes =
-       ["rotate_to.squeeze_args=1|"; "rotate_to.pack=pack_one(src, '* d')";
-        "rotate_to.return=inverse(rotated)"; "rotation.e=rearrange(e, 'b d -> b 1 d')";
-        "fsq.index_dtype=(zhat.round().to(int32) * self._basis).sum(dim=-1).to(int32)";
-        "lq.index_dtype=(zhat.round().to(int32) * self._basis).sum(dim=-1).to(int32)";
-        "lfq.indices=reduce((quantized > 0).int() * self.mask.int(), 'b n c d -> b n c', 'sum')";
-        "ResidualVQ.null_indices_shape = (x.shape[0], *x.shape[-2:]) if self.accept_image_fmap else tuple(x.shape[:2])";
-        "ResidualVQ.null_indices = torch.full(null_indices_shape, -1.0, device=device, dtype=torch.long)";
-        "ResidualVQ.null_loss = torch.full((1,), 0.0, device=device, dtype=x.dtype)";
-        "ResidualFSQ.null_indices = torch.full(x.shape[:2], -1.0, device=device, dtype=torch.long)";
-        "ResidualLFQ.null_indices = torch.full(x.shape[:2], -1.0, device=device, dtype=torch.long)";
-        "ResidualLFQ.null_loss = torch.tensor(0.0, device=device, dtype=x.dtype)";
-        "ResidualSimVQ.null_indices_shape = (x.shape[0], *x.shape[2:]) if self.channel_first else tuple(x.shape[:2])";
-        "ResidualSimVQ.null_indices = torch.full(null_indices_shape, -1.0, device=device, dtype=torch.long)";
-        "ResidualSimVQ.null_loss = torch.full((), 0.0, device=device, dtype=x.dtype)";
-        "vq.only_one = x.ndim == 2";
-        "vq.loss = torch.tensor([0.0], device=device, requires_grad=self.training)"].
+  p_shapes.p_shapes = pinned_p_shapes.
 Proof. exact (@pin_p_shapes). Qed.
 Print Assumptions C13_tie_shape_sites.
 
